@@ -19,25 +19,29 @@ class Ctx:
 
 def setup(want=("so", "ir"), openmp_shim=False):
     """Build from /repo's current tree, inject the compiled stand-in extension, load the IR."""
-    key = tuple(sorted(want))
-    if key in _ctx:
-        return _ctx[key]
     if framework.REPO not in sys.path:
         sys.path.insert(0, framework.REPO)
-    for k in list(sys.modules):
-        if k == "phonopy" or k.startswith("phonopy."):
-            f = getattr(sys.modules[k], "__file__", None) or ""
-            if not f.startswith(framework.REPO):
-                raise HarnessError("phonopy imported from %s, not from %s" % (f, framework.REPO))
-    c = Ctx()
-    c.prod = build.build(want)
-    c.shim = shim.inject(c.prod["so_omp" if openmp_shim else "so"])
-    c.ir = llsym.load_module(c.prod["ir"]) if "ir" in want else None
-    c.ir_omp = llsym.load_module(c.prod["ir_omp"]) if "ir_omp" in want else None
-    import phonopy
-    if not phonopy.__file__.startswith(framework.REPO):
-        raise HarnessError("phonopy imported from %s" % phonopy.__file__)
-    _ctx[key] = c
+    c = _ctx.get("ctx")
+    if c is None:
+        for k in list(sys.modules):
+            if (k == "phonopy" or k.startswith("phonopy.")) and k != "phonopy._phonopy":
+                f = getattr(sys.modules[k], "__file__", None)
+                if f and not f.startswith(framework.REPO):
+                    raise HarnessError("phonopy imported from %s, not from %s" % (f, framework.REPO))
+        c = Ctx(); c.prod = {}; c.ir = None; c.ir_omp = None; c.shim = None
+        _ctx["ctx"] = c
+    need = [w for w in set(want) | {"so"} if w not in c.prod]
+    if need:
+        c.prod.update(build.build(tuple(need)))
+    if c.shim is None:
+        c.shim = shim.inject(c.prod["so_omp" if openmp_shim else "so"])
+        import phonopy
+        if not phonopy.__file__.startswith(framework.REPO):
+            raise HarnessError("phonopy imported from %s" % phonopy.__file__)
+    if "ir" in c.prod and c.ir is None:
+        c.ir = llsym.load_module(c.prod["ir"])
+    if "ir_omp" in c.prod and c.ir_omp is None:
+        c.ir_omp = llsym.load_module(c.prod["ir_omp"])
     return c
 
 
